@@ -328,6 +328,12 @@ def naming_cases(chk, root):
          {'src/common/ids.prophy': 'struct Id { u32 v; };\n', 'export/ids.prophy': '=>src/common/ids.prophy', 'src/a.prophy': '#include "common/ids.prophy"\nstruct A { Id i; };\n',
           'app.prophy': '#include "src/a.prophy"\n#include "export/ids.prophy"\nstruct App { A a; Id i; };\n'},
          'struct Id { u32 v; };\nstruct A { Id i; };\nstruct App { A a; Id i; };\n', 'app', 'App', []),
+        ('a diamond over one file: directly, and through a symbolic link to a hard link of it',
+         {'vendor_a/common.prophy': 'struct Id { u32 v; };\nconst N = 3;\n', 'vendor_b/common.prophy': '=>vendor_a/common.prophy',
+          'shared/common.prophy': '->../vendor_b/common.prophy', 'vendor_a/a.prophy': '#include "common.prophy"\nstruct A { Id i[N]; };\n',
+          'shared/b.prophy': '#include "common.prophy"\nstruct B { Id i; };\n',
+          'app.prophy': '#include "vendor_a/a.prophy"\n#include "shared/b.prophy"\nstruct App { A a; B b; };\n'},
+         'struct Id { u32 v; };\nconst N = 3;\nstruct A { Id i[N]; };\nstruct B { Id i; };\nstruct App { A a; B b; };\n', 'app', 'App', []),
         ('two files of one base name',
          {'common/types.prophy': 'struct P { u64 p; };\n', 'net/types.prophy': 'struct Q { u16 q; };\n',
           'app.prophy': '#include "common/types.prophy"\n#include "net/types.prophy"\nstruct A { P p; Q q; u8 z; };\n'},
@@ -546,10 +552,18 @@ def link_layouts(chk, root):
             target = rng.choice(reals)
             d, leaf = rng.choice(dirs), target[1] if rng.random() < 0.7 else rng.choice(leaves)
             placed.setdefault((d, leaf), ('link', target))
+        if rng.random() < 0.4:
+            # a hard link to a file (the same file in another place), and sometimes a symbolic link to the hard link
+            target = rng.choice(reals)
+            d = rng.choice(dirs)
+            if placed.setdefault((d, target[1]), ('hard', target)) == ('hard', target) and rng.random() < 0.5:
+                placed.setdefault((rng.choice(dirs), target[1]), ('link-to', (d, target[1]), target))
         links_to = {}
-        for (d, leaf), (kind, target) in placed.items():
-            if kind == 'link':
-                links_to.setdefault(target, []).append(d)
+        for (d, leaf), entry in placed.items():
+            if entry[0] in ('link', 'hard'):
+                links_to.setdefault(entry[1], []).append(d)
+            elif entry[0] == 'link-to':
+                links_to.setdefault(entry[2], []).extend([d, entry[1][0]])
         # 2. what a file includes: later leaves that can be found from one of the places it is reached at (mostly; a cycle or a
         #    missing include now and then must be diagnosed in every order)
         for number, (d, leaf) in enumerate(reals):
@@ -567,13 +581,26 @@ def link_layouts(chk, root):
             listing['%s/%s.prophy' % (d, leaf)] = text
             mfiles.append({'dir': d, 'leaf': leaf + '.prophy', 'includes': [i + '.prophy' for i in incs],
                            'defines': ['S_%s_%d' % (leaf, number), 'T_%s' % leaf]})
-            mentries.append({'dir': d, 'leaf': leaf + '.prophy', 'tdir': d, 'tleaf': leaf + '.prophy'})
-        for (d, leaf), (kind, target) in sorted(placed.items()):
-            if kind != 'link':
-                continue
-            os.symlink(os.path.join('..', target[0], target[1] + '.prophy'), os.path.join(base, d, leaf + '.prophy'))
-            listing['%s/%s.prophy' % (d, leaf)] = '->../%s/%s.prophy' % target
-            mentries.append({'dir': d, 'leaf': leaf + '.prophy', 'tdir': target[0], 'tleaf': target[1] + '.prophy'})
+            mentries.append({'dir': d, 'leaf': leaf + '.prophy', 'tdir': d, 'tleaf': leaf + '.prophy', 'idir': d, 'ileaf': leaf + '.prophy'})
+        for (d, leaf), entry in sorted(placed.items(), key=lambda kv: (kv[1][0] == 'link-to', kv[0])):
+            kind = entry[0]
+            if kind == 'link':
+                target = entry[1]
+                os.symlink(os.path.join('..', target[0], target[1] + '.prophy'), os.path.join(base, d, leaf + '.prophy'))
+                listing['%s/%s.prophy' % (d, leaf)] = '->../%s/%s.prophy' % target
+                mentries.append({'dir': d, 'leaf': leaf + '.prophy', 'tdir': target[0], 'tleaf': target[1] + '.prophy',
+                                 'idir': target[0], 'ileaf': target[1] + '.prophy'})
+            elif kind == 'hard':
+                target = entry[1]
+                os.link(os.path.join(base, target[0], target[1] + '.prophy'), os.path.join(base, d, leaf + '.prophy'))
+                listing['%s/%s.prophy' % (d, leaf)] = '=>%s/%s.prophy (hard link)' % target
+                mentries.append({'dir': d, 'leaf': leaf + '.prophy', 'tdir': d, 'tleaf': leaf + '.prophy', 'idir': target[0], 'ileaf': target[1] + '.prophy'})
+                chk.bump('link-layout with a hard link')
+            elif kind == 'link-to':
+                via, target = entry[1], entry[2]
+                os.symlink(os.path.join('..', via[0], via[1] + '.prophy'), os.path.join(base, d, leaf + '.prophy'))
+                listing['%s/%s.prophy' % (d, leaf)] = '->../%s/%s.prophy' % via
+                mentries.append({'dir': d, 'leaf': leaf + '.prophy', 'tdir': via[0], 'tleaf': via[1] + '.prophy', 'idir': target[0], 'ileaf': target[1] + '.prophy'})
         paths = sorted(listing)
         mains = rng.sample(paths, min(len(paths), rng.randint(2, 3)))
         if len(set(os.path.basename(m) for m in mains)) < len(mains):
@@ -590,7 +617,7 @@ def link_layouts(chk, root):
             try:
                 impl = trace_process(list(order), list(incdirs))
                 impl = [{'leaf': r['leaf'] + '.prophy', 'visible': r['visible'],
-                         'parsed': [os.path.relpath(os.path.realpath(x), os.path.realpath(base)) for x in r['parsed']],
+                         'parsed': [next('%s/%s.prophy' % f for f in reals if os.path.samefile(x, os.path.join(base, f[0], f[1] + '.prophy'))) for x in r['parsed']],
                          'shape': include_shape(r['nodes'], 'S_')} for r in impl]
             except Exception as ex:  # noqa
                 impl = {'error': {'FileNotFoundError': 'notFound', 'CyclicIncludeError': 'cyclic', 'SameNameError': 'sameName',
@@ -774,6 +801,7 @@ def run_c20(tier):
                 configs.append((hs, base, leaves))
             configs.append((7, root, leaves))
             configs.append((0, base, list(reversed(leaves))))
+            configs.append(('prefilled', base, leaves))      # the output directory already holds (longer) files of the same names
             shuffled = list(leaves)
             chk.rng.shuffle(shuffled)
             configs.append((13, root, shuffled))
@@ -795,6 +823,11 @@ def run_c20(tier):
             for ci, (hs, cwd, order) in enumerate(configs):
                 out = os.path.join(base, 'out%d' % ci)
                 os.makedirs(out)
+                if hs == 'prefilled':
+                    hs = 0
+                    for fn, data in (ref or {}).items():
+                        with open(os.path.join(out, fn), 'wb') as f:
+                            f.write(data + b'\n// left over from an earlier, longer version of the schema\n' * 20)
                 args = ['--python_out', os.path.relpath(out, cwd), '--cpp_full_out', os.path.relpath(out, cwd), '--cpp_out', os.path.relpath(out, cwd)] + \
                        [x for d in dirs for x in ('-I', os.path.relpath(d, cwd))] + [os.path.relpath(paths[leaf], cwd) for leaf in order]
                 rc, so, se = run_cli(args, cwd, hashseed=hs)
